@@ -242,6 +242,22 @@ def body(ctx: Ctx):
                         bad.append({"executor": label, "cores": n, "got": got, "want": want})
                 finally:
                     exe.shutdown(wait=True)
+        # ---- a per-call request of c ranks on an executor whose default is D ranks (c < D, c > D, unset): the call runs on
+        # the ranks it asked for
+        for D, cs in ((3, [2, None, 4]), (2, [3, None])):
+            exe = executorlib.Executor(backend="local", block_allocation=False, max_cores=6, resource_dict={"cores": D})
+            try:
+                futs = [(c, exe.submit(g["f_rank"], 100 * D + (c or 0), **({"resource_dict": {"cores": c}} if c else {}))) for c in cs]
+                for c, f in futs:
+                    n = c or D
+                    got = f.result(timeout=120)
+                    want = [[r, 100 * D + (c or 0)] for r in range(n)]
+                    ctx.case({"executor": "percall", "default_cores": D, "call_cores": c}, nontrivial=True)
+                    ctx.count("executor.percall_vs_default")
+                    if got != want:
+                        bad.append({"executor": "percall", "default_cores": D, "call_cores": c, "got": got, "want": want})
+            finally:
+                exe.shutdown(wait=True)
         # ---- file mode: cache_parallel.py writes exactly one result file, output in rank order
         from executorlib.standalone.hdf import dump, get_output
 
